@@ -207,6 +207,11 @@ type KInt struct {
 	ID uint
 	V  int
 }
+type KPair struct {
+	ID uint
+	V  int
+	W  int
+}
 type KUint8 struct {
 	ID uint
 	V  uint8
